@@ -124,6 +124,7 @@ func genC20Workflow(c *Chooser, wi int) string {
 // ---- reference model -----------------------------------------------------------
 
 type c20Inv struct {
+	Shell  string // shellcheck: the dialect the script must be checked as
 	Tool   string
 	Stdin  string
 	File   string // absolute workflow path
@@ -269,7 +270,7 @@ func c20Model(file, text string, haveSC, havePF bool) ([]c20Inv, error) {
 						setup = "set -eo pipefail\n"
 					}
 					stdin := setup + script + "\n"
-					out = append(out, c20Inv{Tool: "shellcheck", Stdin: stdin, File: file, Line: key.Line, Col: key.Column, Issues: ScanIssues("shellcheck", stdin)})
+					out = append(out, c20Inv{Shell: which, Tool: "shellcheck", Stdin: stdin, File: file, Line: key.Line, Col: key.Column, Issues: ScanIssues("shellcheck", stdin)})
 				}
 			}
 			if havePF {
@@ -330,6 +331,12 @@ func (c20) Eval(c *Chooser, env *Env) *Outcome {
 	}
 	if haveSC {
 		w.Opts.Shellcheck = "shellcheck"
+		if c.Weighted("world.toolcmdline", 1, 4) {
+			w.Opts.Shellcheck = "shellcheck --severity=style" // a command line instead of an executable name
+		}
+	}
+	if c.Weighted("world.gomaxprocs", 1, 4) {
+		w.GoMaxProcs = w.CPUs * (2 + c.Int("world.gmpfactor", 2)) // GOMAXPROCS above the number of CPUs
 	}
 	if havePF || tools.Missing["pyflakes"] {
 		w.Opts.Pyflakes = "pyflakes"
@@ -357,7 +364,7 @@ func (c20) Eval(c *Chooser, env *Env) *Outcome {
 			e := expect[c.Int("fault.inv", len(expect))]
 			kinds := []ToolFault{TFCannotStart, TFKilled, TFKilledOutput, TFNonzeroEmpty, TFEpipe}
 			if e.Tool == "shellcheck" {
-				kinds = append(kinds, TFGarbage)
+				kinds = append(kinds, TFGarbage, TFEmptyOK)
 			}
 			k := kinds[c.Int("fault.kind", len(kinds))]
 			key := InvKey(e.Tool, e.Stdin)
@@ -429,6 +436,23 @@ func (c20) Eval(c *Chooser, env *Env) *Outcome {
 		key := InvKey(toolOf(inv.Argv), inv.Stdin)
 		got[key]++
 		stdinOf[key] = inv.Stdin
+	}
+	// the dialect passed to shellcheck is the effective shell of the step
+	wantShell := map[string]string{}
+	for _, e := range expect {
+		if e.Tool == "shellcheck" {
+			wantShell[InvKey(e.Tool, e.Stdin)] = e.Shell
+		}
+	}
+	for _, inv := range k.Invocations {
+		if toolOf(inv.Argv) != "shellcheck" {
+			continue
+		}
+		if ws, ok := wantShell[InvKey("shellcheck", inv.Stdin)]; ok && shellArg(inv.Argv) != ws {
+			o.V = &Violation{Oracle: "invocations", Class: "wrong-shell-dialect",
+				Message: fmt.Sprintf("a script whose effective shell is %s was passed to shellcheck with --shell %s: %q stdin=%q", ws, shellArg(inv.Argv), strings.Join(inv.Argv, " "), inv.Stdin)}
+			return o
+		}
 	}
 	for key, n := range got {
 		if want[key] == 0 {
